@@ -244,3 +244,24 @@ def replay_dup_binding(skel, names, values):
     d = ref_bind(skel, names, values)
     want = "<" + "|".join(str(d.get(k, "-")) for k in ("a", "b", 1, 2, 3)) + ">"
     return (f"template body '<{{{{{{a|-}}}}}}|{{{{{{b|-}}}}}}|{{{{{{1|-}}}}}}|{{{{{{2|-}}}}}}|{{{{{{3|-}}}}}}>': expand({doc!r})", got != want, f"result {got!r}, the binding rule (later duplicates win, positional numbering) gives {want!r}")
+
+
+# ---------------------------------------------------------------- nesting the same template through an argument is not a loop
+def replay_nested_same_template():
+    """{{wrap|x={{wrap|x={{wrap|x=a}}}}}} is acyclic: every level must expand (the loop detector exempts repetitions that
+    start at an argument-value frame, whatever the argument is called)"""
+    w = Wtp(quiet=True, quiet_output=True)
+    for key in ("x", "1", "long name", "2"):
+        w.add_page("Template:wrap" + key.replace(" ", ""), 10, "({{{" + key + "}}})")
+    for key in ("x", "1", "long name", "2"):
+        name = "wrap" + key.replace(" ", "")
+        for depth in (2, 3, 4, 5):
+            doc = "a"
+            for _ in range(depth):
+                doc = "{{" + name + "|" + (key + "=" if key != "1" else "") + doc + "}}"
+            w.start_page("T")
+            got = w.expand(doc)
+            want = "(" * depth + "a" + ")" * depth
+            if got != want:
+                return (f"Template:{name} = '({{{{{{{key}}}}}}})': expand({doc!r})", True, f"result {got!r}, expected {want!r}: an acyclic nesting of the same template through its argument is reported as a loop")
+    return ("nested same-template documents", False, "")
